@@ -33,6 +33,7 @@ type FieldLayout struct {
 	GoField int        `json:"-"` // struct field index (-1 unknown)
 	Pos     token.Pos  `json:"-"`
 	Ev      []*Event   `json:"-"`
+	Patched  bool      `json:"-"` // written as a zero placeholder and filled in place afterwards with the field's value
 	ZeroList bool      `json:"-"` // list on a path where its count is zero: no element layout of its own
 	ValueOps []string  `json:"-"` // transformations on the value path that are not on the lossless allow-list
 	WireIDs []int      `json:"-"` // decode: ids of the read events feeding this field
